@@ -76,6 +76,7 @@ STALL = float(os.environ.get("VERIF_STALL", "60"))              # virtual second
 STALL_LIVE = float(os.environ.get("VERIF_STALL_LIVE", "90"))   # ... when locks are taken and given back all the time (livelock)
 BACKOFF_DISTINCT = [2.5, 1.75, 3.25, 2.0, 3.75, 1.25, 2.75, 1.5, 3.5, 2.25, 3.0, 1.375, 2.625, 3.875, 1.625, 2.875]
 BACKOFF_EQUAL = [2.0, 2.0, 2.0, 2.0] + BACKOFF_DISTINCT
+BEHIND_CONCURRENT = os.environ.get("VERIF_BEHIND_CONCURRENT", "1") == "1"    # family "behind a completed gate": also issue op 2 WITH the gate
 
 
 def jkey(x):
@@ -422,8 +423,44 @@ class HoldPolicy:
         return self.base.choose(exp, msgs, tim)
 
 
+class HeldConnPolicy:
+    """"operation behind a completed gate": FIFO, except that EVERYTHING on the directed connections `conns`
+    ("Bob->Charlie": the calls Bob makes at Charlie) is withheld for as long as anything else can be delivered; when
+    nothing else is deliverable up to `patience` pending timers are fired (pollers of an operation that waits for a
+    lock), then the held messages are released and the run goes on FIFO.  `behind`: the step at which operation
+    `until` had completed while messages were still being held (None: it never did -- it waits for them, as every
+    call of the unchanged code is awaited -- the schedule is then a sequential one)."""
+
+    def __init__(self, conns, until=0, patience=3, rev=False):
+        self.conns, self.until, self.patience = set(conns), until, patience
+        self.base = FifoPolicy(rev)
+        self.state, self.fired, self.behind, self.nheld = 0, 0, None, 0
+        self.early = []
+
+    def finish(self):
+        if self.behind is None:
+            self.early.append((0, self.nheld))
+
+    def choose(self, exp, msgs, tim):
+        if self.state == 0:
+            held = [m for m in msgs if m[1] in self.conns]
+            rest = [m for m in msgs if m[1] not in self.conns]
+            self.nheld = max(self.nheld, len(held))
+            if held and self.behind is None and self.until in exp.ex.done:
+                self.behind = exp.step
+            if rest:
+                return self.base.choose(exp, rest, tim)
+            if held and tim and self.fired < self.patience:
+                self.fired += 1
+                return ("t", 0)
+            self.state = 1
+        return self.base.choose(exp, msgs, tim)
+
+
 def make_policy(spec):
     k = spec["kind"]
+    if k == "holdconn":
+        return HeldConnPolicy(spec["conns"], spec.get("until", 0), spec.get("patience", 3), spec.get("rev", False))
     if k == "hold":
         return HoldPolicy(spec["conn"], spec.get("what", "reply"), spec.get("nth", 0), spec.get("linger", False),
                           spec.get("method", "get_global_lock"), spec.get("rev", False))
@@ -450,6 +487,8 @@ def spec_kind(spec):
         return "delay%d" % max(1, len(spec["phases"]) // 2)
     if k == "hold":
         return "slow-grant/%s%s" % (spec.get("what", "reply"), "+linger" if spec.get("linger") else "")
+    if k == "holdconn":
+        return "held-connection/%d" % len(spec["conns"])
     return k
 
 
@@ -472,11 +511,13 @@ class Explorer:
         self.cur = None
         self.step = 0
         self.actions = []
+        self.track_updates = any(op[0] == "g2" for _t, op in ex.case.get("conc", []))
         self.steps_of = collections.Counter()      # deliveries per op
         self.timer_steps = []                      # steps at which a message was chosen while a timer was pending
         self.fired = []                            # (step, description, op) of fired timers
         self.timeouts = []                         # (op, step): `_lock_nodes` time-outs that took the time-out path
         self._pending_to = None
+        self.open_updates = {}                     # (caller, callee, request id) -> op: delivered `update_virtual_merge` calls not answered yet
 
     def absorb(self):
         net = self.net
@@ -519,6 +560,17 @@ class Explorer:
         if act[0] == "d":
             self.cur = next(m[2] for m in msgs if m[0] == act[1])
             self.steps_of[self.cur] += 1
+            if self.track_updates:
+                lab = net.label(act[1])
+                if "<-" in lab:
+                    if self.open_updates:
+                        h = net.head(act[1]) or ""
+                        if h.startswith(("answer#", "error#")):
+                            self.open_updates.pop(tuple(lab.split("<-")) + (h.split("#", 1)[1],), None)
+                elif "->" in lab:
+                    h = net.head(act[1]) or ""
+                    if h.startswith("call:update_virtual_merge#"):
+                        self.open_updates[tuple(lab.split("->")) + (h.split("#", 1)[1],)] = self.cur
             if tim:
                 self.timer_steps.append(self.step)
         else:
@@ -601,6 +653,7 @@ class Exec:
         self.results = {}
         self.done = set()
         self.completion_time = {}
+        self.unawaited = []                            # [op, connection, call]: calls an op had made that were undelivered when it returned
         _CUR = self
 
     # -- scripted coins ------------------------------------------------------
@@ -872,8 +925,9 @@ class Exec:
             self.prepare(tag, op)
         self.exp = exp = Explorer(self, policy)
         chains = collections.OrderedDict()
+        chain_of = (lambda tag: "*") if self.case.get("chain") else (lambda tag: tag)   # "chain": ONE chain over all clients
         for i, (tag, _op) in enumerate(conc):
-            chains.setdefault(tag, []).append(i)
+            chains.setdefault(chain_of(tag), []).append(i)
         fin = [Deferred() for _ in conc]
         t0 = net.clock.seconds()
         self.last_done_at = t0
@@ -894,13 +948,21 @@ class Exec:
             self.done.add(i)
             self.completion_time[i] = net.clock.seconds() - t0
             self.last_done_at = net.clock.seconds()
-            ch = chains[tag]
+            if conc[i][1][0] == "g2":
+                # observation only: bookkeeping calls of this gate (handle re-pointing at other nodes) still on the wire
+                for cid, lab, head in net.pending(detail=True):
+                    if head and head.startswith("call:update_virtual_merge#") and exp.op_of_serial(net._pipes[cid].head()[0]) == i:
+                        self.unawaited.append([i, lab, "update_virtual_merge not delivered"])
+                for (a, b, _rid), o in sorted(exp.open_updates.items()):
+                    if o == i:
+                        self.unawaited.append([i, "%s->%s" % (a, b), "update_virtual_merge delivered, not answered"])
+            ch = chains[chain_of(tag)]
             k = ch.index(i)
             if k + 1 < len(ch):
                 start(ch[k + 1])
             fin[i].callback(None)
             return None
-        for tag, ch in chains.items():
+        for _key, ch in chains.items():
             start(ch[0])
         hung = None
         while True:
@@ -1105,6 +1167,7 @@ def run_schedule(case, spec):
         "bringup": {"missing_at_issue": ex.missing_at_issue, "issued_at": case["bringup"].get("at"),
                     "connection_attempts": [[round(t, 3), a, b, ok] for t, a, b, ok in ex.net.connection_log]} if ex.bringup else None,
         "lock_takers": lock_takers(ex), "idle_gap": ex.gaps_conc[0], "hold_gap": ex.gaps_conc[1],
+        "unawaited": ex.unawaited, "behind": getattr(pol, "behind", None),
     }
     return rec
 
@@ -1152,11 +1215,12 @@ _REF_CACHE = {}
 
 def serial_refs(case):
     """[(order, obs or None, hang or None)] -- the REAL code, sequentially"""
-    key = jkey({k: case.get(k) for k in ("nodes", "max_qubits", "host_order", "prefix", "conc", "coin", "bringup")})
+    key = jkey({k: case.get(k) for k in ("nodes", "max_qubits", "host_order", "prefix", "conc", "coin", "bringup", "chain")})
     if key in _REF_CACHE:
         return _REF_CACHE[key]
     out = []
-    for order in orders(case["conc"]):
+    # "chain": each operation is issued when the previous one has RETURNED -- the only admissible order is the issue order
+    for order in ([list(range(len(case["conc"])))] if case.get("chain") else orders(case["conc"])):
         ex = Exec(case)
         ex.prefix()
         hung = ex.run_serial(order)
@@ -1381,12 +1445,20 @@ def classify(prop, ds, rec, symptom):
     lock monitor observes directly come first; then the named classes; otherwise
     `<op variants>:<relation>:<symptom>` over the ops that stand in the strongest relation."""
     unfinished = set(rec["hang"]["unfired"]) if rec.get("hang") else None
+    if rec.get("unawaited"):
+        # a two-qubit gate RETURNED to its client while its handle re-pointing call to another node was still on the wire
+        # or unanswered (observed directly on the network)
+        return "gate-returned-before-update_virtual_merge-answered:" + symptom
     if prop == "C04" and symptom in ("hang", "not-quiescent") and not rec["timeouts"]:
         k = send_cycle_key(ds, unfinished) or send_cycle_key(ds, None)
         if k:
             return k
-    if rec["foreign"]:
+    if rec["foreign"] and rec["timeouts"]:
         return "lock-nodes-timeout:foreign-release"
+    if rec["foreign"]:
+        # a node lock released by an operation that does not hold it although NO `_lock_nodes` time-out was ever taken:
+        # not the open time-out finding (whose root cause is the time-out path's release of locks it was never granted)
+        return "foreign-release-without-lock-nodes-timeout"
     if rec["timeouts"] and prop == "C04":
         if uncontended_leak(rec):
             # the time-out path itself loses a lock: nobody else ever asked for it
@@ -1596,6 +1668,8 @@ def spec_size(spec):
         return 5 + len(spec["at"]) + min(spec["at"] or [0]) + spec_size(spec["base"])
     if spec["kind"] == "fifo":
         return 0
+    if spec["kind"] == "holdconn":
+        return 2 + len(spec["conns"]) + (1 if spec.get("rev") else 0)
     if spec["kind"] == "hold":
         return 2 + (1 if spec.get("linger") else 0) + (1 if spec.get("rev") else 0) + spec.get("nth", 0)
     return 1000
@@ -1606,7 +1680,7 @@ def judge_into(out, prop, case, ds, spec, rec, refs, label):
     out.n += 1
     out.deliveries += rec["nactions"] + rec["prefix_actions"]
     h = jhash([case["conc"], case.get("host_order"), case.get("backoff", [0])[:2], rec["actions"]] +
-              ([case["bringup"]] if case.get("bringup") else []))
+              ([case["bringup"]] if case.get("bringup") else []) + (["chain"] if case.get("chain") else []))
     new = h not in out.hashes
     out.hashes.add(h)
     out.counts["%s|%s" % (label, spec_kind(spec))] += 1
@@ -1670,6 +1744,7 @@ def judge_into(out, prop, case, ds, spec, rec, refs, label):
                                "locks_at_idle": {n: f for n, f in rec["obs"]["locks"].items()
                                                  if f["node"] or f["qubits"] or f["waiting"]},
                                "lock_nodes_timeouts": rec["timeouts"], "foreign_releases": rec["foreign"],
+                               "calls_undelivered_when_gate_returned": rec.get("unawaited") or [],
                                "bringup": rec.get("bringup"), "gave_up": (rec.get("hang") or {}).get("reason"),
                                "list_mutations_without_node_lock": rec["unguarded"][:6],
                                "backoff_draws": rec["backoff_log"], "coins": rec["coin_trace"]}}
@@ -1799,7 +1874,44 @@ def _run_conn_wait(task, out):
                             "bringup": case.get("bringup")})
 
 
+def _run_behind_gate(task, out):
+    """directed family "operation behind a completed gate": op 0 is a two-qubit gate that pulls a register one of whose
+    qubits is held by a THIRD node T (neither the gate's node nor the old simulator); everything the new simulator
+    (variant: the old one; both) sends to T is held while anything else can be delivered (HeldConnPolicy).  op 1 is an
+    operation of T's client on T's handle of that register, (chain) issued when the gate has RETURNED -- the only
+    admissible serial order is then gate; op 1 -- or (no chain) issued together with the gate.  On the unchanged code
+    the gate awaits T's answer, so it cannot return while the call is held: the chained schedule is a sequential one."""
+    prop, ps, label = task["prop"], task["ps"], task["label"]
+    base = dict(task["case"])
+    base["conc"] = task["conc"]
+    ds = [op_desc(ps, tag, op) for tag, op in base["conc"]]
+    nodes = base.get("nodes", NODES)
+    for chain in ((True, False) if task.get("concurrent") else (True,)):
+        for host_order in (None, list(reversed(nodes))):
+            case = dict(base)
+            if chain:
+                case["chain"] = True
+            if host_order:
+                case["host_order"] = host_order
+            case["backoff"] = BACKOFF_DISTINCT
+            refs = serial_refs(case) if prop == "C03" else None
+            lab = "%s|%s%s" % (label, "issued when the gate has returned" if chain else "issued with the gate",
+                               "|rev-host-order" if host_order else "")
+            for conns in task["conns"]:
+                spec = {"kind": "holdconn", "conns": conns, "until": 0, "patience": 3}
+                rec = run_schedule(case, spec)
+                judge_into(out, prop, case, ds, spec, rec, refs, lab)
+                if rec["behind"] is not None:
+                    out.counts["~the gate returned while calls to the third node were still held"] += 1
+                elif chain:
+                    out.counts["~the gate waits for the held call (the schedule is a sequential one)"] += 1
+    if len(out.samples) < 1:
+        out.samples.append({"placement": base.get("name"), "conc": base["conc"], "schedules": out.n, "family": "behind-gate"})
+
+
 def _run_task(task, out):
+    if task.get("family") == "behind-gate":
+        return _run_behind_gate(task, out)
     if task.get("family") == "slow-grant":
         return _run_slow_grant(task, out)
     if task.get("family") == "conn-wait":
@@ -1907,6 +2019,18 @@ def conn_wait_cases():
     return out
 
 
+def trio_cases():
+    """three qubits simulated at Bob, two of them held by Alice (in different registers / in one register), the third by
+    Charlie: a two-qubit gate of Alice on her two handles names ONE remote node twice (control's and target's simulator)
+    while Charlie's operation needs the same node's lock for a different handle"""
+    out = []
+    for name, ent in (("trio", []), ("trio-same-reg", [["g1", "t0", "H"], ["g2", "t0", "t1", "cnot"]])):
+        out.append({"name": name, "nodes": NODES, "max_qubits": 5,
+                    "prefix": [["new", B, "t0"], ["new", B, "t1"], ["new", B, "t2"], ["g1", "t2", "X"]] + ent +
+                              [["send", "t0", A], ["send", "t1", A], ["send", "t2", C], ["new", C, "c0"], ["g1", "c0", "H"]]})
+    return out
+
+
 def family_tasks(prop, thorough, rng, placed):
     """the directed families (run first, never skipped for time).  placed: [(case, ps, ops)] of the placements"""
     tasks = []
@@ -1933,6 +2057,54 @@ def family_tasks(prop, thorough, rng, placed):
             tasks.append({"prop": prop, "case": case, "ps": ps, "conc": with_tags([x]), "seed": rng.randrange(1 << 30),
                           "label": "slow grant|%s|%s" % (d["variant"], case["name"]), "family": "slow-grant",
                           "deep": thorough, "cost": 10 ** 6})
+    # ---- operation behind a completed gate: every merge with a third-node holder ------------------------------------
+    for case, ps, ops in placed:
+        L, R = ps["labels"], ps["regs"]
+        for x in ops:
+            if x[1][0] != "g2":
+                continue
+            d = op_desc(ps, x[0], x[1])
+            for reg in d["moved"]:
+                old = reg.split("/")[0]
+                for third in sorted(set(R.get(reg, [])) - d["foot"]):
+                    mine = [l for l in sorted(L) if L[l]["reg"] == reg and L[l]["holder"] == third]
+                    for y in ops:
+                        if node_of(y[0]) != third or y[1][0] == "new" or not (set(mine) & set(y[1][1:3] if y[1][0] == "g2" else y[1][1:2])):
+                            continue
+                        sig = "behind|" + pair_signature(ps, x, x, thorough) + "|" + pair_signature(ps, y, y, thorough) + "|" + \
+                            jkey([L[l]["index"] for l in mine])
+                        if sig in seen:
+                            continue
+                        seen.add(sig)
+                        conc = with_tags([x, y])
+                        d2 = op_desc(ps, conc[1][0], conc[1][1])
+                        conns = [["%s->%s" % (d["node"], third)], ["%s->%s" % (old, third)],
+                                 ["%s->%s" % (d["node"], third), "%s->%s" % (old, third)]]
+                        tasks.append({"prop": prop, "case": case, "ps": ps, "conc": conc, "seed": rng.randrange(1 << 30),
+                                      "label": "behind a completed gate|%s then %s|%s" % (d["variant"], d2["variant"], case["name"]),
+                                      "family": "behind-gate", "conns": conns, "concurrent": BEHIND_CONCURRENT, "cost": 10 ** 6})
+    # ---- one remote node twice in a gate's lock list || a third party's operation simulated at that node -------------------
+    for case in (trio_cases() if thorough else trio_cases()[:1]):
+        ps = placement_state(case)
+        case = dict(case, coin=coins_for(ps["labels"], rng))
+        ops = all_ops(ps, case["nodes"], self_send=False)
+        L = ps["labels"]
+        for x in ops:
+            d = op_desc(ps, x[0], x[1])
+            if not d["variant"].startswith("g2:RR1") or x[1][1] > x[1][2]:
+                continue
+            sim = L[x[1][1]]["sim"]
+            for y in ops:
+                d2 = op_desc(ps, y[0], y[1])
+                if d2["node"] in (d["node"], sim) or sim not in d2["foot"] or set(d2["labels"]) & set(d["labels"]):
+                    continue
+                if d2["kind"] == "g2" and not thorough:
+                    continue                 # (two contending gates: the time-out paths dominate the cost)
+                conc = with_tags([x, y])
+                tasks.append({"prop": prop, "case": case, "ps": ps, "conc": conc, "seed": rng.randrange(1 << 30),
+                              "label": "one remote node twice in the gate's lock list|%s || %s|%s" % (d["variant"], d2["variant"], case["name"]),
+                              "grid": 2 if thorough else 1, "cap2": 40, "timer": True, "timer2": False, "timer_on_grid": False,
+                              "equal_backoff": False, "host_orders": thorough, "pct": 0, "rand": 0, "cost": 10 ** 6 - 1})
     # ---- concurrent operations waiting for one missing connection --------------------------------------------------
     for case, ops in conn_wait_cases():
         ps = placement_state(case)
@@ -2314,6 +2486,13 @@ def check(ctx, prop):
                 "connection': partial bring-up (SimNet bring-up mode: Alice->Bob, or Alice->Bob and Charlie->Bob, still "
                 "refused/retrying), every pair and %s triples of sends / merging gates / arrivals on different handles that "
                 "wait in get_connection for the peer, FIFO both ways, each operation ahead by 0-%d messages, timer races, PCT; "
+                "directed family 'operation behind a completed gate': every two-qubit gate that moves a register with a holder at "
+                "a third node (all placements but f12-4), all messages new simulator -> third node / old simulator -> third node / "
+                "both held while anything else is deliverable, then each operation of the third node on its handle of that register "
+                "issued when the gate has returned (serial order gate; operation) or with the gate, both host orders; directed "
+                "family 'one remote node twice in the gate's lock list': placement trio (thorough: also trio-same-reg), gate on two "
+                "handles simulated at one remote node || each operation of a third node on another qubit simulated there, delay "
+                "injection over the whole gate; "
                 "a run in which for %d virtual s (%d s if locks are taken and released all the time) nothing is deliverable, only "
                 "timers fire, a lock is held and no operation completes is given up as hanging.  Oracle %s" % (
                     [n for n, (_, s) in placements().items() if s == 0 or ctx.thorough] + ["capacity"],
